@@ -50,11 +50,13 @@ GenNext ==
             PurgeStart(p, k, <<d>>) /\ Log([a |-> "PurgeStart", p |-> p, k |-> k, d |-> d])
        \/ (UnnamedPurge /\ \E k \in Keys :
             PurgeStart(p, k, SeqOfDisp) /\ Log([a |-> "PurgeStart", p |-> p, k |-> k, d |-> ""]))
+       \/ \E k \in Keys : PurgeAbsent(p, k) /\ Log([a |-> "PurgeAbsent", p |-> p, k |-> k])
        \/ PurgeRemove(p) /\ Log([a |-> "PurgeRemove", p |-> p])
        \/ PurgeFence(p) /\ Log([a |-> "PurgeFence", p |-> p])
        \/ \E ok \in BOOLEAN : PurgeDelete(p, ok) /\ Log([a |-> "PurgeDelete", p |-> p, ok |-> ok])
   \/ \E j \in Jumps : Tick(j) /\ Log([a |-> "Tick", j |-> j])
   \/ \E d \in Disp, k \in Keys : StoreDrop(d, k) /\ Log([a |-> "StoreDrop", d |-> d, k |-> k])
+  \/ Reapply /\ Log([a |-> "Reapply"])
   \/ Kill /\ Log([a |-> "Kill"])
   \/ (Finished /\ UNCHANGED hist)
 
